@@ -749,6 +749,57 @@ func (s *DB) getHistoricRootsAndNodes(
 			}
 		}
 	}
+	if len(candidateBlocks) > 0 {
+		// The same holds for every other version that stays: the history this vacuum retains
+		// (a vacuum that removed delete markers returned the tree to earlier content), and
+		// the current versions of other writers, which this handle has not merged and which
+		// share most objects with the version they started from.
+		empty, err := crdt.Load(ctx, s.crdt.Config, nil, emptyRoot(time.Time{}, s.crdt.Mast.BranchFactor(), s.crdt.Config))
+		if err != nil {
+			return nil, nil, fmt.Errorf("empty tree: %w", err)
+		}
+		staying := map[string]struct{}{}
+		for name := range rootCacheByName {
+			staying[name] = struct{}{}
+		}
+		listed, err := s.listRoots(ctx)
+		if err != nil {
+			return nil, nil, fmt.Errorf("list current versions: %w", err)
+		}
+		for _, name := range listed {
+			staying[name] = struct{}{}
+		}
+		for name := range staying {
+			if _, doomed := candidateRoots[name]; doomed {
+				continue
+			}
+			root, _, err := loadRootFromAny(ctx, []mast.Persist{s.merged, s.root, s.merged}, name)
+			if err != nil {
+				return nil, nil, fmt.Errorf("load %s: %w", name, err)
+			}
+			if root == nil {
+				continue
+			}
+			name := name
+			tree, err := crdt.Load(ctx, s.crdt.Config, &name, *root)
+			if err != nil {
+				return nil, nil, fmt.Errorf("load %s: %w", name, err)
+			}
+			if root.Link != nil {
+				delete(candidateBlocks, *root.Link)
+			}
+			err = tree.Mast.DiffLinks(ctx, empty.Mast,
+				func(removed bool, link interface{}) (bool, error) {
+					if ls, ok := link.(string); ok && !removed {
+						delete(candidateBlocks, ls)
+					}
+					return true, nil
+				})
+			if err != nil {
+				return nil, nil, fmt.Errorf("links of %s: %w", name, err)
+			}
+		}
+	}
 	nodes = make([]string, 0, len(candidateBlocks))
 	for k := range candidateBlocks {
 		nodes = append(nodes, k)
